@@ -47,6 +47,7 @@ def gen_plan(prop, run_seed, tier):
     n_plates = w.choice([1, 2, 2, 3, 4, 5, 7])
     sizes = [w.choice([1, 1, 2, 3, 4, 6, 8]) for _ in range(n_plates)]
     n = w.choice([3, 3, 4, 5, 6, 8])
+    extremes = False
     if w.random() < 0.05:  # more plates / larger plates / more samples than any plausible block size
         kind = w.choice(["plates", "sizes", "samples"])
         if kind == "plates":
@@ -54,9 +55,16 @@ def gen_plan(prop, run_seed, tier):
             sizes = [w.choice([1, 1, 2, 3]) for _ in range(n_plates)]
         elif kind == "sizes":
             sizes[w.randrange(n_plates)] = w.choice([33, 70, 130])
+            if w.random() < 0.5:
+                # two full-size plates whose variances sit at opposite ends of the promised six orders of magnitude:
+                # their log-scores are more than 700 nats apart (exp() of the difference underflows)
+                sizes = [96, 70] + sizes[:2]
+                n_plates = len(sizes)
+                extremes = True
         else:
             n = w.choice([10, 13, 20, 23, 32])  # C(32,3) = 4960 <= the default budget of 5000: still enumerated
-    return dict(engine="dbalsim", prop=prop, sizes=sizes, n=n, mode=w.choice(["homo", "hetero", "platehomo"]),
+    return dict(engine="dbalsim", prop=prop, sizes=sizes, n=n, plate_extremes=extremes,
+                mode=("platehomo" if extremes else w.choice(["homo", "hetero", "platehomo"])),
                 seed=w.randrange(2**31), zero_dist=w.choice([0.0, 0.2, 0.6, 1.0 if w.random() < 0.15 else 0.3]),
                 D=w.randint(1, 3), var_span=w.choice([1, 3, 6]), sched_seed=s.randrange(2**31),
                 n_chunks=s.choice([2, 3, n_plates, n_plates + 2]), max_chunks=[1, s.randint(2, 3), 50])
@@ -187,8 +195,13 @@ def _run(plan, log, stats, violation):
         FT = fake_theta_cls()
         plate_of_row = np.asarray(screen.plate_ids)
         thetas = []
+        n_pl = int(plate_of_row.max()) + 1
+        level = np.array([(-2.8 if k % 2 == 0 else 2.8) for k in range(n_pl)])
         for _ in range(n):
-            per_plate = 10 ** nprng.uniform(-plan["var_span"] / 2, plan["var_span"] / 2, int(plate_of_row.max()) + 1)
+            if plan.get("plate_extremes"):
+                per_plate = 10 ** (level + nprng.uniform(-0.2, 0.2, n_pl))
+            else:
+                per_plate = 10 ** nprng.uniform(-plan["var_span"] / 2, plan["var_span"] / 2, n_pl)
             thetas.append(FT(nprng.normal(0, 1.5, n_rows), per_plate[plate_of_row]))
     # distance matrix: symmetric, non-negative, zeros included
     D = np.zeros((n, n))
